@@ -906,6 +906,10 @@ impl Oracle {
             }
             E::CallE(c, args) => {
                 let vs = self.eval_args(sc, args)?;
+                // `(f)(x)` with a plain name in the parentheses is the same as `f(x)`
+                if let E::Var(name) = &**c {
+                    return self.call_named(sc, name, vs);
+                }
                 let cv = self.eval(sc, c)?;
                 self.call_value(sc.st, cv, vs, true)
             }
@@ -1094,6 +1098,9 @@ struct CaseRun {
     notes: Vec<String>,
     /// an input that ended in a run-time error (rolled back)
     had_error: bool,
+    /// the implementation showed a number the model's formatter does not cover (possible after a known finding
+    /// made the implementation compute something else than the oracle): no line for the model
+    outside_model: bool,
 }
 
 fn structural(ctx: &Context) -> String {
@@ -1242,6 +1249,9 @@ struct Runner {
     ost: OState,
     prev_structure: String,
     run: CaseRun,
+    /// generated cases: do not hand the implementation an input that is ill-typed under its own (late binding)
+    /// reading of function values; corpus and replay lines are run regardless
+    drop_undefined: bool,
 }
 
 impl Runner {
@@ -1251,7 +1261,7 @@ impl Runner {
         run.procs = ctx.verif_c09_bytecode().vm.ffi_callables.clone();
         let ost = OState { globals: vec![], funs: vec![], nfuns: 0, structs: BTreeMap::new(), last: None, builtins: false };
         let prev_structure = structural(&ctx);
-        Runner { ctx, ost, prev_structure, run }
+        Runner { ctx, ost, prev_structure, run, drop_undefined: false }
     }
 
     fn feed(&mut self, input: &Input) -> Fed {
@@ -1302,6 +1312,13 @@ impl Runner {
             run.notes.push("dropped_budget_late_binding".into());
             return Fed::Dropped;
         }
+        if self.drop_undefined && matches!(&late.result, Err(OErr::Stuck(_))) {
+            // known finding C09-fnvalue-late-binding in its worst form: under the implementation's reading the call
+            // is ill-typed (another arity, operands of another kind, globals that do not exist yet): anything can
+            // happen, including a loop; the exact inputs of the finding are in the corpus (replayed with the watchdog)
+            run.notes.push("dropped_late_binding_undefined".into());
+            return Fed::Dropped;
+        }
         // 3. the implementation
         *CURRENT.lock().unwrap() = Some((
             std::time::Instant::now(),
@@ -1335,11 +1352,13 @@ impl Runner {
         // after a panic the context is not looked at any more: the model keeps the previous state
         let structure = if panicked { self.prev_structure.clone() } else { structural(ctx) };
         self.prev_structure = structure.clone();
-        run.records.push(InputRecord {
-            dump,
-            behaviour: format!("{} {} ref={}", outcome_text(&outcome), out_text(&out), if panicked { "skip" } else { "ok" }),
-            structure,
-        });
+        let behaviour =
+            canon_nan(&format!("{} {} ref={}", outcome_text(&outcome), out_text(&out), if panicked { "skip" } else { "ok" }));
+        let structure = canon_nan(&structure);
+        if strings_in(&behaviour).iter().chain(strings_in(&structure).iter()).any(|t| outside_fragment_text(t)) {
+            run.outside_model = true;
+        }
+        run.records.push(InputRecord { dump, behaviour, structure });
         run.accepted.push(input.clone());
         run.notes.push(format!(
             "outcome_{}",
@@ -1381,10 +1400,8 @@ impl Runner {
         if !agree {
             let late_text = norm(expect_text(&late.result, &t3));
             let explained_by_late = (late_text == got && late.out == out && state_ok(&t3))
-                || (matches!(late.result, Err(OErr::Stuck(_))) && panicked)
-                // a function value bound late to a function compiled further down, whose globals do not
-                // exist yet: the implementation reads whatever lies in those stack slots
-                || matches!(&late.result, Err(OErr::Stuck(w)) if w.contains("before its globals exist"));
+                // under the late-binding reading the call is ill-typed: whatever the implementation does
+                || matches!(late.result, Err(OErr::Stuck(_)));
             let mut what = format!(
                 "input `{}`: implementation gives {} {:?}, evaluation of the source gives {} {:?}",
                 src.replace('\n', " ⏎ "),
@@ -1465,6 +1482,57 @@ fn pretty_expect(r: &Result<Expect, OErr>, st: &OState) -> String {
         }
         other => expect_text(other, st),
     }
+}
+
+/// Lean's `Float.toBits` gives every NaN the bit pattern 7ff8000000000000: NaNs are compared as NaNs
+fn canon_nan(s: &str) -> String {
+    let mut o = String::with_capacity(s.len());
+    let mut rest = s;
+    while let Some(k) = rest.find("(n ") {
+        o.push_str(&rest[..k + 3]);
+        let tail = &rest[k + 3..];
+        if tail.len() >= 16 && tail.as_bytes()[..16].iter().all(|b| b.is_ascii_hexdigit()) {
+            let bits = u64::from_str_radix(&tail[..16], 16).unwrap_or(0);
+            if f64::from_bits(bits).is_nan() {
+                o.push_str("7ff8000000000000");
+            } else {
+                o.push_str(&tail[..16]);
+            }
+            rest = &tail[16..];
+        } else {
+            rest = tail;
+        }
+    }
+    o.push_str(rest);
+    o
+}
+
+/// text that shows a number the model's formatter does not cover (not an integer below 2^53): the generator never
+/// writes `.`, `inf`, `NaN` or an exponent into a string itself
+fn outside_fragment_text(t: &str) -> bool {
+    t.contains('.') || t.contains("inf") || t.contains("NaN") || t.contains("e+") || t.contains("e-")
+}
+
+/// all strings inside a canonical text (`(s x<hex>)` tokens and `out=[x<hex>,…]`)
+fn strings_in(canon: &str) -> Vec<String> {
+    let mut v = Vec::new();
+    let bytes = canon.as_bytes();
+    let mut i = 0;
+    while i < bytes.len() {
+        if bytes[i] == b'x' && (i == 0 || matches!(bytes[i - 1], b' ' | b'[' | b',')) {
+            let mut j = i + 1;
+            while j < bytes.len() && bytes[j].is_ascii_hexdigit() {
+                j += 1;
+            }
+            if let Some(t) = unhex(&canon[i..j]) {
+                v.push(t);
+            }
+            i = j;
+        } else {
+            i += 1;
+        }
+    }
+    v
 }
 
 fn request_line(run: &CaseRun) -> (String, String) {
@@ -2373,9 +2441,11 @@ fn regroup(fl: &[(usize, S)]) -> Vec<Input> {
 
 fn emit_case(out: &mut Out, inputs: &[Input], count: bool) {
     let run = run_case(inputs);
-    if !run.records.is_empty() {
+    if !run.records.is_empty() && !run.outside_model {
         let (req, ans) = request_line(&run);
         out.line(&req, &ans);
+    } else if run.outside_model {
+        out.count("no_model_line_number_outside_fragment");
     }
     if count {
         count_case(&run, out);
@@ -2462,8 +2532,8 @@ fn emit_src(out: &mut Out, line: &str) {
         let structure = if panicked { prev.clone() } else { structural(&ctx) };
         prev = structure.clone();
         dumps.push(dump);
-        bs.push(format!("{} {} ref={}", outcome_text(&outcome), out_text(&outp), if panicked { "skip" } else { "ok" }));
-        ss.push(structure);
+        bs.push(canon_nan(&format!("{} {} ref={}", outcome_text(&outcome), out_text(&outp), if panicked { "skip" } else { "ok" })));
+        ss.push(canon_nan(&structure));
         let want = expected.get(k).copied().unwrap_or("any");
         let shown = if outp.is_empty() { pretty.clone() } else { format!("{} printed {}", pretty, outp.join("|")) };
         if want != "any" && want != shown {
@@ -2503,6 +2573,7 @@ fn run_line(out: &mut Out, l: &str, count: bool) {
 /// one generated case: inputs are generated one at a time against the live session
 fn generate_case(rng: &mut Rng, out: &mut Out) {
     let mut runner = Runner::new();
+    runner.drop_undefined = true;
     let mut env = GenEnv::default();
     let n_inputs = 1 + rng.below(3);
     let mut offered: Vec<Input> = Vec::new();
@@ -2539,9 +2610,11 @@ fn generate_case(rng: &mut Rng, out: &mut Out) {
         }
     }
     let run = runner.run;
-    if !run.records.is_empty() {
+    if !run.records.is_empty() && !run.outside_model {
         let (req, ans) = request_line(&run);
         out.line(&req, &ans);
+    } else if run.outside_model {
+        out.count("no_model_line_number_outside_fragment");
     }
     count_case(&run, out);
     for n in &run.notes {
